@@ -30,7 +30,7 @@ ASSUMPTIONS = [
 ]
 
 WIDTHS = [1, 1, 2, 2, 3, 3, 4, 8, 16, 64]
-CFG = st.builds(lambda w, d: {"kind": "linear", "width": w, "depth": d}, st.sampled_from(WIDTHS), st.integers(1, 8))
+CFG = st.builds(lambda w, d: {"kind": "linear", "width": w, "depth": d}, st.sampled_from(WIDTHS), st.one_of(st.integers(1, 8), st.integers(1, 8), st.integers(1, 8), st.integers(1, 8), st.integers(1, 8), st.integers(1, 8), st.sampled_from([65, 66, 130])))
 
 
 class Checker:
